@@ -347,6 +347,11 @@ known.register('C01-ioapi-tflag-reduced', lambda spec, f: (
     f.where.split('@')[0] in ('ValueError', 'OverflowError') and
     _reduced_tstep(spec)))
 
+known.register('C01-ioapi-slice-rowcol', lambda spec, f: (
+    f.clause == 'malformed' and f.klass == 'slice:ioapi/degraded' and
+    'degraded' in _ctx(f) and 'uses dimensions' in f.detail and
+    ("['COL']" in f.detail or "['ROW']" in f.detail)))
+
 known.register('C01-ioapi-var-redim', lambda spec, f: (
     f.clause == 'malformed' and 'baddims=VAR ' in f.detail and
     'cls=ioapi' in _ctx(f) and 'degraded' in _ctx(f)))
